@@ -18,7 +18,7 @@ ALLOWED_AXIOMS = {"propext", "Classical.choice", "Quot.sound"}
 
 # property → streams run by the harness, translator items the theorems depend on, extra Lean modules
 PROPS = {
-    "C01": dict(streams=["c01"], items=["keycodes", "layoutkeys", "charclasses", "rankcmp", "okkhor"]),
+    "C01": dict(streams=["c01"], items=["keycodes", "layoutkeys", "charclasses", "rankcmp", "okkhor", "panicsites"]),
     "C02": dict(streams=["c01"], items=["keycodes", "layoutkeys", "charclasses", "rankcmp", "okkhor"]),
     "C05": dict(streams=["c05"], items=["keycodes", "charclasses", "rankcmp", "okkhor"]),
     "C06": dict(streams=["c06", "c01"], items=["keycodes", "layoutkeys", "charclasses", "rankcmp", "okkhor"]),
